@@ -86,3 +86,22 @@ def embed(Ma, n, act):
     M = np.zeros((n, n))
     M[np.ix_(act, act)] = Ma
     return M
+
+
+def spring_net(rng, n):
+    """stiffness of a network of springs with integer rates: a connected chain plus random extra springs, a few nodes tied to
+    the ground.  Positive definite, and the columns of the nodes without a ground spring sum to exactly 0.0 in floating
+    point (what stiffness matrices of unrestrained lumped models look like)"""
+    K = np.zeros((n, n))
+    edges = [(i, i + 1) for i in range(n - 1)]
+    for _ in range(int(rng.integers(0, 2 * n))):
+        i, j = (int(x) for x in rng.integers(0, n, 2))
+        if i != j:
+            edges.append((i, j))
+    for i, j in edges:
+        w = float(rng.integers(1, 1000))
+        K[i, i] += w; K[j, j] += w; K[i, j] -= w; K[j, i] -= w
+    ng = int(rng.integers(1, max(2, n // 4)))
+    for i in rng.choice(n, ng, replace=False):
+        K[int(i), int(i)] += float(rng.integers(1, 1000))
+    return K
